@@ -5,10 +5,12 @@
 //! vh replay <file.json>                   replay a recorded violation
 //! vh selftest                             engine self tests on toy programs
 mod api;
+mod calls;
 mod common;
 mod explore;
 mod fmt;
 mod json;
+mod num;
 mod plan;
 mod reffmt;
 mod rt;
@@ -80,6 +82,8 @@ fn run_spec(spec: &Spec) -> common::Report {
         "queue" => sc_queue::run(spec),
         "fmt01" => fmt::run_c01(spec),
         "fmt04" => fmt::run_c04(spec),
+        "num" => num::run(spec),
+        "calls" => calls::run(spec),
         other => {
             let mut r = common::Report::new(&spec.raw);
             r.errors.push(format!("unknown engine {:?}", other));
